@@ -405,7 +405,7 @@ func (e *Engine) readLoc(st *State, loc string, f *types.Var, pos token.Pos, bas
 		if base != nil && base.Kind == KAlloc && base.Fields != nil && f != nil {
 			if fv, ok := base.Fields[f.Name()]; ok && fv != nil {
 				v = fv
-			} else if len(base.Fields) > 0 || base.Lit == nil {
+			} else if (len(base.Fields) > 0 || base.Lit == nil) && !base.Escaped {
 				if _, isStruct := derefType(base.Type).Underlying().(*types.Struct); isStruct && base.Elems == nil {
 					v = e.newVal(KZero, f.Type(), pos)
 				}
